@@ -21,6 +21,13 @@ Theorem C14_l0_sorted : forall progs sched, let y := runS (init progs) sched in
 Proof. exact l0_sorted. Qed.
 Print Assumptions C14_l0_sorted.
 
+(** every level chain (marked nodes included) reaches the tail and is strictly increasing, in EVERY
+    reachable state — acyclic and duplicate-free on every level, not only at quiescence *)
+Theorem C14_levels_sorted : forall progs sched l, let y := runS (init progs) sched in
+  exists c, chain_ids (sh y) l = Some c /\ StronglySorted Z.lt (map (fun n => key (node (sh y) n)) c).
+Proof. exact levels_sorted. Qed.
+Print Assumptions C14_levels_sorted.
+
 (** the unmarked nodes of every level chain are exactly the level-0 nodes of at least that height, in
     the same order: each level is a sub-sequence of the level below and every live node is linked at
     all levels up to its height *)
@@ -32,7 +39,9 @@ Theorem C14_levels : forall progs sched, let y := runS (init progs) sched in
 Proof. exact levels. Qed.
 Print Assumptions C14_levels.
 
-(** ... and, with the repaired Insert4, no marked node is linked at any level at quiescence *)
+(** ... and, with the twice repaired Insert4 (re-check after linking, successor mark test before
+    linking), no marked node is linked at ANY level at quiescence — false for the code before either
+    repair (D9, D15) *)
 Theorem C14_levels_clean : forall progs sched, let y := runS (init progs) sched in
   quiescentS y = true ->
   forall l, (l <= sl_level (sh y))%nat ->
